@@ -481,7 +481,27 @@ def run_units(scratch, prop, units, tier):
     if not ok:
         out["undecided"].append("engine V: k2v is not built (run bin/setup):\n" + blog)
         return out
+    # translation validation of the lowering rules themselves (tools/k2v/selftest): runs beside the expansion
+    st = {}
+
+    def selftest():
+        try:
+            r = run(["python3", os.path.join(VERIF, "tools", "k2v", "selftest", "run.py"), os.path.join(scratch.path, "k2v-selftest")], timeout=900)
+            m = re.search(r"K2V-SELFTEST cases=(\d+) evaluations=(\d+) panicking=(\d+) differences=(\d+)", r["out"])
+            st.update(rc=r["rc"], cases=int(m.group(1)) if m else 0, evaluations=int(m.group(2)) if m else 0,
+                      differences=int(m.group(4)) if m else None, tail=(r["out"] + r["err"])[-800:])
+        except Exception as e:
+            st.update(rc=2, cases=0, evaluations=0, differences=None, tail=repr(e))
+
+    sth = threading.Thread(target=selftest)
+    sth.start()
     exp, errs = expand(scratch)
+    sth.join()
+    out["k2v_selftest"] = dict(rc=st.get("rc"), cases=st.get("cases"), evaluations=st.get("evaluations"), differences=st.get("differences"),
+                               rule="every self-test case is lowered by k2v, compiled natively next to the original and compared on an exhaustive small input domain")
+    if st.get("rc") != 0:
+        out["undecided"].append("engine V: k2v self-test did not pass (rc=%s): the lowering cannot be trusted, no V verdict is reported\n%s" % (st.get("rc"), st.get("tail")))
+        return out
     if errs:
         out["undecided"] += ["engine V: " + e for e in errs]
         return out
